@@ -3,7 +3,10 @@
 -/
 import Plonk.Model.Bls
 import Plonk.Model.Transcript
+import Plonk.Model.Kzg
 import Plonk.Driver.Parse
+import Plonk.Driver.Kernels
+import Plonk.Driver.Prog
 namespace Plonk.Driver
 open Plonk
 
@@ -81,6 +84,91 @@ def cryptoAnswer (toks : List String) : String :=
       | some p => showBytes (G2.smul k p).toCompressed
       | none => "err"
     | _, _ => "bad-request"
+  | _ => "bad-request"
+
+end Plonk.Driver
+
+namespace Plonk.Driver
+open Plonk
+
+def drawOf? (h : String) : Option Nat := (parseBytes? h).bind fun bs => if bs.length == 64 then some (wideDraw bs) else none
+
+def srsOf? (deg d1 d2 d3 : String) : Option (Except KErr SRS) :=
+  match deg.toNat?, drawOf? d1, drawOf? d2, drawOf? d3 with
+  | some deg, some a, some b, some c => some (SRS.setup deg [a, b, c])
+  | _, _, _, _ => none
+
+def kzgAnswer (toks : List String) : String :=
+  match toks with
+  | ["kzgsetup", deg, d1, d2, d3] =>
+    match srsOf? deg d1 d2 d3 with
+    | some (.ok s) =>
+      let bytes := s.powers.flatMap G1.toCompressed
+      s!"g={showBytes s.g.toCompressed} h={showBytes s.h.toCompressed} xh={showBytes s.xh.toCompressed} n={s.powers.length} hk={toHex (hashList bytes)}"
+    | some (.error e) => "err:" ++ e.name
+    | none => "bad-request"
+  | ["kzgtrim", deg, d1, d2, d3, trim] =>
+    match srsOf? deg d1 d2 d3, trim.toNat? with
+    | some (.ok s), some t => match s.trim t with
+      | .ok k => toString k.length
+      | .error e => "err:" ++ e.name
+    | some (.error e), _ => "err:" ++ e.name
+    | _, _ => "bad-request"
+  | ["kzgcommit", deg, d1, d2, d3, trim, coeffs] =>
+    match srsOf? deg d1 d2 d3, trim.toNat?, parseList? coeffs with
+    | some (.ok s), some t, some p => match s.trim t with
+      | .ok ck => match commit ck (Poly.ofCoeffs p) with
+        | .ok c =>
+          -- spec: the commitment is [p(x)]g
+          let spec := G1.smul (Poly.evaluate (Poly.ofCoeffs p) s.x) s.g
+          showBytes c.toCompressed ++ (if spec == c then " spec=ok" else " spec=MISMATCH")
+        | .error e => "err:" ++ e.name
+      | .error e => "err:" ++ e.name
+    | some (.error e), _, _ => "err:" ++ e.name
+    | _, _, _ => "bad-request"
+  | "kzgbatch" :: deg :: d1 :: d2 :: d3 :: trim :: items :: rest =>
+    match srsOf? deg d1 d2 d3, trim.toNat? with
+    | some (.ok s), some t => match s.trim t with
+      | .error e => "err:" ++ e.name
+      | .ok ck =>
+        let parseItem (it : String) : Option (Nat × KProof) :=
+          match it.splitOn "|" with
+          | [z, v, polys, evals, wz] =>
+            match parseHex? z, parseHex? v, optionAll parseList? (polys.splitOn ";"), parseHex? wz with
+            | some z, some v, some polys, some wz =>
+              let polys := polys.map Poly.ofCoeffs
+              let evs? : Option (List Nat) := if evals == "=" then some (polys.map (Poly.evaluate · z)) else parseList? evals
+              match evs?, optionAll (fun p => (commit ck p).toOption) polys,
+                    (commit ck (aggregateWitness polys wz v)).toOption with
+              | some evs, some comms, some w =>
+                let (c, e) := flatten comms evs v
+                some (z, { witness := w, eval := e, comm := c })
+              | _, _, _ => none
+            | _, _, _, _ => none
+          | _ => none
+        let its := if items == "-" then some [] else optionAll parseItem (items.splitOn "/")
+        match its with
+        | none => "err:item"
+        | some its =>
+          let points := its.map (·.1)
+          let proofs := its.map (·.2)
+          let proofs := match rest.find? (·.startsWith "perm=") with
+            | some p => ((p.drop 5).toString.splitOn ",").filterMap fun i => i.toNat?.bind fun i => proofs[i]?
+            | none => proofs
+          let points := match rest.find? (·.startsWith "npoints=") with
+            | some p => match (p.drop 8).toString.toNat? with
+              | some n => (points ++ List.replicate n (points.headD 1)).take n
+              | none => points
+            | none => points
+          match batchCheck s (Transcript.new (Strobe.strBytes "kzg-verif")) points proofs with
+          | .ok () => "ok"
+          | .error e => "err:" ++ e.name
+    | some (.error e), _ => "err:" ++ e.name
+    | _, _ => "bad-request"
+  | ["kzgaggw", polys, z, v] =>
+    match optionAll parseList? (polys.splitOn ";"), parseHex? z, parseHex? v with
+    | some ps, some z, some v => showList (aggregateWitness (ps.map Poly.ofCoeffs) z v)
+    | _, _, _ => "bad-request"
   | _ => "bad-request"
 
 end Plonk.Driver
